@@ -142,7 +142,7 @@ def concretise_record(rc, rng):
         pid = b"\x00\x00\x00\x00" if rc["x"] == "zero" else rng.randbytes(4)
         return (C.Ping if t == "Ping" else C.Pong)(pid)
     if t == "Open":
-        name = {"ascii": "proto-1", "nonascii": "прото ☃ ünï", "long": "n" * 300}[rc["x"]]
+        name = {"ascii": "proto-1", "nonascii": "прото ☃ ünï / not NFC as given: u\u0308 \u212b \u1100\u1161 \ufb01", "long": "n" * 300}[rc["x"]]
         return C.Open(ids[rc["seq"]], ids[rc["id"]], name)
     if t == "Data":
         return C.Data(ids[rc["seq"]], ids[rc["id"]], rng.randbytes(int(rc["x"])))
